@@ -19,6 +19,13 @@ CLAIMED = {
  'C03': C('provenance (index-is-opaque) + search-kind and accept-set tables over MIR',
    'Decides the anchored mechanism only: named consumers select by name over the whole scope and the index found flows only into remove/get/+1/current; words never match a name; '
    'positional consumers skip named items. Does NOT decide permutation invariance of outcomes.', 'DESIGN.md section 5 C03'),
+ 'C04': C('audited panic-site census over MIR (asserts, Index/slice ops, unwrap, explicit panics, exit), byte/char index discipline by provenance, loop-driver classification + cursor/progress variants, call-graph SCC census, effect/static/interior-mutability census',
+   'Decides: every panic-capable site of every analysed configuration is covered by the hand-reviewed audit (a new site/kind/count is a violation); str slice and String cut offsets are byte offsets by provenance; '
+   'constructor invariants behind `[0]`/todo!(); check_invariants rejects what ParseAdjacent would panic on (fixed 6c3b196); every loop is driven by a finite std/caller iterator or is a listed open loop whose '
+   'variant is checked; every call-graph cycle is a listed structural recursion; group tokens never nest; ambient effects, statics, thread-locals, interior mutability absent outside the listed sites; eval/meta take &self; '
+   'run_inner builds a fresh State. Found and fixed: d5c7918, f0c3a74, 6c3b196, de9de29. Known findings: two process::exit sites of the completion protocol. '
+   'Does NOT re-derive the arithmetic the audit asserts; user closures assumed total.', 'DESIGN.md section 5 C04',
+   note='audit/panic_audit.json is part of the trusted base (reviewed reasons).'),
  'C05': C('who-may-write census, guard control-dependence, read=>remove pairing, error-discipline census, symbolic scope tracking along all paths (set_scope/clone/swap)',
    'Decides: the consumption ledger is written only by the listed primitives and is private (third-party parsers cannot consume); consumption acts only on in-scope present items; '
    'success of a consumer implies removal of what it read; Ok of run_subparser implies empty scope; the Err->Ok conversion sites are exactly the listed ones and each restores or never adopts '
